@@ -96,6 +96,15 @@ func TestC04AcksAcrossResume(t *testing.T) {
 			s.Faults = append(s.Faults, reconlib.Fault{Trigger: memnet.Trigger{Dir: cls[0].(memnet.Dir), Class: cls[1].(string), Ordinal: 1 + r.Intn(8), After: r.Intn(2) == 0,
 				Mode: []memnet.Mode{memnet.Sever, memnet.WFail, memnet.REOF, memnet.Blackhole}[r.Intn(4)]}, DialDelayMs: []int{0, 1, 300}[r.Intn(3)]})
 		}
+		if r.Intn(3) == 0 {
+			// the application's logger blocks at one step of the reconnect / resume procedure; half of these also let
+			// the retry's link die the moment the first stream has resumed on it
+			s.SlowLog = reconlib.SlowLogSites[r.Intn(len(reconlib.SlowLogSites))]
+			s.SlowLogMs = []int{300, 3000, 10000}[r.Intn(3)]
+			if r.Intn(2) == 0 {
+				s.Faults[0].NextLink = []memnet.Trigger{{Dir: memnet.S2C, Class: "DownstreamResumeResponse", Ordinal: 1, After: true, Mode: []memnet.Mode{memnet.Sever, memnet.REOF}[r.Intn(2)]}}
+			}
+		}
 		var res vrun.Result
 		ok, dump := vrun.Watchdog(120*time.Second, func() {
 			func() {
